@@ -9,13 +9,25 @@ the encoded operands, observed through `observe_inv` (op.I, op.I.I, as_matrix() 
 Oracle: NumPy - mat(op.I) @ mat(op) = I = mat(op) @ mat(op.I) (Penrose equations for diagonals with
 zeros), finiteness, refusal of non-square operands, op.I.I denotes op.
 
+MAGNITUDE scopes (`kind` magnitude-*): every closed-form inverse whose parameters are numbers (scalar,
+diagonal entries, block entries) is run over the magnitude range of its dtype - signed powers of two from
+the smallest normal number to the largest one whose reciprocal is normal (2^-126..2^126 in float32,
+2^-1022..2^1022 in float64, float64 and float32 under jax_enable_x64 in a helper process), mixed with
+exact zeros and ordinary values.  Reciprocals of powers of two are exact, so these cases are compared
+EXACTLY (no tolerance anywhere: exact rationals of the measured floats on the implementation side, Qc in
+the model, whose `pinv` is decided by `= 0` in the field - any cut-off, regularisation or overflow in the
+implementation is a disagreement) and the oracle is the closed formula 1/d (0 at zeros) on the case data.
+
 The clause "A.I(y) solves A z = y to the configured solver tolerance" (lineax CG in floating point) is
-NOT a theorem: `extra()` tests it numerically (reported under numerical_tests_not_proof).
+NOT a theorem: `extra()` tests it numerically (reported under numerical_tests_not_proof), with the
+configuration established by a single block AND by nested / sibling `with Config(...)` blocks.
 """
 from __future__ import annotations
 
+import atexit
 import itertools
 import json
+import math
 import os
 import subprocess
 import sys
@@ -155,12 +167,12 @@ _built: dict = {}
 
 
 def operand(case):
-    if 'desc' not in case:
+    if 'mag' not in case and 'desc' not in case:
         return env()[case['name']]
-    key = json.dumps(case['desc'], sort_keys=True)
+    key = json.dumps(case.get('mag') or case['desc'], sort_keys=True)
     if key not in _built:
         try:
-            _built[key] = A.build_operand(case['desc'], env())
+            _built[key] = build_mag(case['mag']) if 'mag' in case else A.build_operand(case['desc'], env())
         except Exception as e:
             _built[key] = A.Unbuildable(case['name'], e)
     return _built[key]
@@ -185,6 +197,285 @@ def category(name: str) -> str:
         (kind, _), = d['e'].items()
         return {'I': 'lazy-inverse-wrapper', 'T': 'lazy-transpose'}.get(kind, 'composite')
     return 'other'
+
+
+# ---------------------------------------------------------------------------------------------
+# magnitude scopes of the closed forms: signed powers of two over the whole normal range of the dtype,
+# exact zeros, ordinary values.  Everything about these cases is EXACT (see the module docstring).
+
+# exponents e such that 2^e AND 2^-e are normal numbers of the dtype (XLA on CPU flushes subnormals to
+# zero, so 1/2^127 = 0 in float32: outside the scope), dense around the machine epsilon and at both ends
+LADDER = {
+    'float32': [-126, -125, -120, -100, -64, -40, -30, -25, -24, -23, -22, -16, -10, -3, 0,
+                3, 10, 16, 22, 23, 24, 25, 30, 40, 64, 100, 120, 125, 126],
+    'float64': [-1022, -1021, -1000, -600, -300, -150, -100, -64, -60, -54, -53, -52, -51, -30, -10, 0,
+                10, 30, 51, 52, 53, 54, 60, 64, 100, 150, 300, 600, 1000, 1021, 1022],
+}
+ORDINARY = ['+2^1', '-2^2', '+2^-1', '+2^3', '+2^0', '-2^0']
+XVEC = [1, -2, 3, 1, 2, -1, -3]  # right-hand side of the round trips (3 * 2^126 is finite in float32)
+
+
+def pw(e: int, neg: bool = False) -> str:
+    return ('-' if neg else '+') + f'2^{e}'
+
+
+def val(v) -> Fraction:
+    """Value spec of a magnitude case: 0 | small integer / dyadic | '+2^e' | '-2^e'."""
+    if isinstance(v, str):
+        sign = -1 if v[0] == '-' else 1
+        return sign * Fraction(2) ** int(v.split('^')[1])
+    return Fraction(v)
+
+
+def with_dtype(desc, dt):
+    """Structure description (alg. mk_struct syntax) with every leaf given the dtype dt."""
+    if isinstance(desc, list) and all(isinstance(i, int) for i in desc):
+        return {'shape': desc, 'dtype': dt}
+    if isinstance(desc, list):
+        return [with_dtype(d, dt) for d in desc]
+    if 'stokes' in desc:
+        return dict(desc, dtype=dt)
+    (k, v), = desc.items()
+    if k == 'dict':
+        return {'dict': {kk: with_dtype(vv, dt) for kk, vv in v.items()}}
+    return {k: [with_dtype(d, dt) for d in v]}
+
+
+def leaf_shapes(desc):
+    """Shapes of the leaves of a structure description, in jax flattening order."""
+    if isinstance(desc, list) and all(isinstance(i, int) for i in desc):
+        return [tuple(desc)]
+    if isinstance(desc, list):
+        return [s for d in desc for s in leaf_shapes(d)]
+    if 'stokes' in desc:
+        return [tuple(desc['shape'])] * len(desc['stokes'])
+    (k, v), = desc.items()
+    if k == 'dict':
+        return [s for kk in sorted(v) for s in leaf_shapes(v[kk])]
+    return [s for d in v for s in leaf_shapes(d)]
+
+
+def mag_children(c):
+    """Children of one container level of a block description (None: a block)."""
+    if isinstance(c, list):
+        return c
+    if 'k' in c:
+        return None
+    if 'tuple' in c:
+        return c['tuple']
+    return [c['dict'][k] for k in sorted(c['dict'])]
+
+
+def mag_array(values, dt):
+    jnp = A.J()['jnp']
+    a = np.array([float(val(v)) for v in values], dtype=np.dtype(dt))
+    assert all(Fraction(float(x)) == val(v) for x, v in zip(a, values)), 'value not representable in ' + dt
+    return jnp.asarray(a)
+
+
+def build_mag(d):
+    """Real operator of a magnitude description: mhomoth / mdiag / mbdiag (containers of descriptions) /
+    minv (the closed-form inverse object of a description, as an operand)."""
+    j = A.J()
+    k = d['k']
+    if k == 'mhomoth':
+        return j['core'].HomothetyOperator(mag_array([d['v']], d['dt'])[0], A.mk_struct(with_dtype(d['s'], d['dt'])))
+    if k == 'mdiag':
+        return j['diagonal'].DiagonalOperator(mag_array(d['v'], d['dt']), axis_destination=d.get('axis', 0),
+                                              in_structure=A.mk_struct(with_dtype(d['s'], d['dt'])))
+    if k == 'minv':
+        return build_mag(d['of']).I
+    if k == 'mbdiag':
+        def cont(c):
+            if isinstance(c, list):
+                return [cont(x) for x in c]
+            if 'k' in c:
+                return build_mag(c)
+            if 'tuple' in c:
+                return tuple(cont(x) for x in c['tuple'])
+            return {kk: cont(vv) for kk, vv in c['dict'].items()}
+        return j['blocks'].BlockDiagonalOperator(cont(d['blocks']))
+    raise ValueError(d)
+
+
+def expected_diag(d) -> list:
+    """CLOSED FORMULA (independent of the implementation): the diagonal of the dense matrix of a magnitude
+    description, as exact rationals."""
+    k = d['k']
+    if k == 'mhomoth':
+        return [val(d['v'])] * sum(int(np.prod(s)) for s in leaf_shapes(d['s']))
+    if k == 'mdiag':
+        v = [val(x) for x in d['v']]
+        out = []
+        for shp in leaf_shapes(d['s']):
+            ax = d.get('axis', 0) % len(shp)
+            assert shp[ax] == len(v)
+            for idx in np.ndindex(*shp):
+                out.append(v[idx[ax]])
+        return out
+    if k == 'minv':
+        return [fpinv(x) for x in expected_diag(d['of'])]
+    if k == 'mbdiag':
+        def walk(c):
+            kids = mag_children(c)
+            if kids is None:
+                return expected_diag(c)
+            return [x for kid in kids for x in walk(kid)]
+        return walk(d['blocks'])
+    raise ValueError(d)
+
+
+def mag_weight(d) -> int:
+    """Largest |exponent| in a magnitude description."""
+    if isinstance(d, str):
+        return abs(int(d.split('^')[1])) if '^' in d else 0
+    if isinstance(d, dict):
+        return max([mag_weight(v) for v in d.values()] or [0])
+    if isinstance(d, list):
+        return max([mag_weight(v) for v in d] or [0])
+    return 0
+
+
+def fpinv(x: Fraction) -> Fraction:
+    return Fraction(0) if x == 0 else 1 / x
+
+
+def exact_matrix(m):
+    return [[Fraction(float(v)) for v in row] for row in np.asarray(m, dtype=np.float64)]
+
+
+def tree_from_flat(struct, vec):
+    j = A.J()
+    jax, jnp = j['jax'], j['jnp']
+    leaves, treedef = jax.tree.flatten(struct)
+    out, pos = [], 0
+    for l in leaves:
+        size = int(np.prod(l.shape))
+        out.append(jnp.asarray(np.array(vec[pos:pos + size], dtype=np.dtype(l.dtype)).reshape(l.shape)))
+        pos += size
+    return jax.tree.unflatten(treedef, out)
+
+
+_enc_cls = {}
+
+
+def exact_encoder():
+    """algebra.Encoder with the measured matrices and the scalar parameters kept as the exact rationals
+    of the floats (algebra.to_frac rounds to denominators <= 4096: 2^-30 would become 0)."""
+    if 'c' not in _enc_cls:
+        class ExactEncoder(A.Encoder):
+            def add_table(self, key, op):
+                if key not in self.table:
+                    self.table[key] = exact_matrix(A.leaf_matrix(op))
+
+            def term(self, op):
+                if isinstance(op, A.J()['core'].HomothetyOperator):
+                    return (f'(Homoth {self.oid(op)} {A.cqc(Fraction(float(op.value)))} '
+                            f'{A.struct_coq(op.in_structure())})')
+                return super().term(op)
+
+        _enc_cls['c'] = ExactEncoder
+    return _enc_cls['c']()
+
+
+def skeleton_x(op, enc):
+    """algebra.skeleton with exact scalar parameters."""
+    j = A.J()
+    core, blocks = j['core'], j['blocks']
+    i = enc.known(op)
+    name = type(op).__name__
+    if isinstance(op, core.HomothetyOperator):
+        v = np.asarray(op.value)
+        if v.shape != () or not np.isfinite(v):
+            return [name, i, [f'not a finite scalar: {v}'], []]
+        return [name, i, [A.frac_json(Fraction(float(v)))], []]
+    if isinstance(op, core.CompositionOperator):
+        return [name, i, [], [skeleton_x(o, enc) for o in op.operands]]
+    if isinstance(op, core.AdditionOperator):
+        return [name, i, [], [skeleton_x(o, enc) for o in op.operand_leaves]]
+    if isinstance(op, blocks.AbstractBlockOperator):
+        return [name, i, [], [skeleton_x(o, enc) for o in op.block_leaves]]
+    if A.wrap_kind(op) is not None:
+        return [name, i, [], [skeleton_x(op.operator, enc)]]
+    return A.skeleton(op, enc)
+
+
+def random_mag_leaf(rng, dt, allow_inv=True):
+    L = LADDER[dt]
+    lo, hi = L[0], L[-1]
+    r = rng.random()
+    if r < 0.3:
+        return {'k': 'mhomoth', 'v': pw(rng.randint(lo, hi), rng.random() < 0.5), 's': [rng.randint(1, 2)], 'dt': dt}
+    n = rng.randint(1, 3)
+    v = [0 if rng.random() < 0.2 else (rng.choice(ORDINARY) if rng.random() < 0.2 else pw(rng.randint(lo, hi), rng.random() < 0.5))
+         for _ in range(n)]
+    dg = {'k': 'mdiag', 'v': v, 's': [n], 'dt': dt}
+    if allow_inv and r > 0.85:
+        return {'k': 'minv', 'of': dg}
+    return dg
+
+
+def random_mag_container(rng, dt, depth=0):
+    kids = []
+    for _ in range(rng.randint(1, 3)):
+        if depth < 2 and rng.random() < 0.3:
+            kids.append(random_mag_container(rng, dt, depth + 1))
+        elif depth < 2 and rng.random() < 0.15:
+            kids.append({'k': 'mbdiag', 'blocks': random_mag_container(rng, dt, depth + 1)})
+        else:
+            kids.append(random_mag_leaf(rng, dt))
+    kind = rng.choice(['list', 'tuple', 'dict'])
+    if kind == 'list':
+        return kids
+    if kind == 'tuple':
+        return {'tuple': kids}
+    return {'dict': {f'k{i}': v for i, v in enumerate(kids)}}
+
+
+def mag_cases(rng, quick: bool):
+    """The magnitude scopes: (dtype, jax_enable_x64) in float32 / float64+x64 / float32+x64."""
+    out = []
+    structs = [[2], [1], {'dict': {'a': [2], 'b': [1, 2]}}, {'stokes': 'IQU', 'shape': [1]}, [[1], [2]]]
+    for dt, x64 in (('float32', False), ('float64', True), ('float32', True)):
+        L = LADDER[dt]
+        n = len(L)
+        tag = dt[-2:] + ('x' if (x64 and dt == 'float32') else '')
+        keep = (lambda i: True) if not (x64 and dt == 'float32') else (lambda i: i % (4 if quick else 2) == 0)
+
+        def add(kind, name, desc):
+            out.append({'kind': kind, 'name': f'{name}{tag}', 'mag': desc, 'x64': x64})
+        # scalars: the whole ladder, signs alternating, leaf / dict / Stokes / list structures
+        for i, e in enumerate(L):
+            if keep(i):
+                add('magnitude-scalar', f'MH{i}_', {'k': 'mhomoth', 'v': pw(e, i % 2 == 1), 's': structs[i % len(structs)], 'dt': dt})
+        # diagonals: a window sliding over the ladder - tiny, zero, ordinary, huge, signs - at rotating positions;
+        # every third one without zero (invertible)
+        for i in range(n):
+            if not keep(i):
+                continue
+            v = [pw(L[i]), 0, ORDINARY[i % len(ORDINARY)], pw(L[n - 1 - i], True), pw(L[(i + n // 3) % n], i % 3 == 0)]
+            if i % 3 == 1:
+                v.remove(0)
+            v = v[i % len(v):] + v[:i % len(v)]
+            add('magnitude-diagonal', f'MD{i}_', {'k': 'mdiag', 'v': v, 's': [len(v)], 'dt': dt})
+        # the closed-form inverse object as an operand (D.I).I, diagonals along axes of 2-d leaves and pytrees
+        for i in range(0, n, 5):
+            if not keep(i):
+                continue
+            a, b, c = pw(L[i], i % 2 == 0), pw(L[n - 1 - i]), pw(L[(i + 7) % n], True)
+            add('magnitude-diagonal', f'MI{i}_', {'k': 'minv', 'of': {'k': 'mdiag', 'v': [a, 0, b, c], 's': [4], 'dt': dt}})
+            add('magnitude-diagonal', f'MA{i}_', {'k': 'mdiag', 'v': [a, b], 's': [2, 3], 'axis': 0, 'dt': dt})
+            add('magnitude-diagonal', f'MB{i}_', {'k': 'mdiag', 'v': [c, 0, a], 's': [2, 3], 'axis': -1, 'dt': dt})
+            add('magnitude-diagonal', f'MT{i}_', {'k': 'mdiag', 'v': [b, c], 's': {'list': [[2], [2, 2]]}, 'axis': 0, 'dt': dt})
+        # seeded random: diagonals with exponents uniform over the range, block-diagonal containers
+        nr = (4 if quick else 40) if (x64 and dt == 'float32') else (10 if quick else 120)
+        for k in range(nr):
+            m = rng.randint(1, 6)
+            v = [0 if rng.random() < 0.15 else pw(rng.randint(L[0], L[-1]), rng.random() < 0.5) for _ in range(m)]
+            add('magnitude-diagonal', f'MR{k}_', {'k': 'mdiag', 'v': v, 's': [m], 'dt': dt})
+        for k in range(nr):
+            add('magnitude-blockdiag', f'MK{k}_', {'k': 'mbdiag', 'blocks': random_mag_container(rng, dt)})
+    return out
 
 
 # ---------------------------------------------------------------------------------------------
@@ -226,15 +517,16 @@ def impl_matrix(op) -> np.ndarray:
     raise NotImplementedError(type(op).__name__)
 
 
-def observe(thunk, enc, invertible: bool):
+def observe(thunk, enc, invertible: bool, exact: bool = False):
     """skeleton / structures / matrix of the operator returned by thunk (or the error kind)."""
+    skel, fm = (skeleton_x, exact_matrix) if exact else (A.skeleton, A.frac_matrix)
     try:
         with A.quiet_config():
             op = thunk()
     except Exception as e:
         name = type(e).__name__
         return {'err': name if name in A.ERRS else f'Other:{name}'}, None
-    out = {'skel': A.skeleton(op, enc), 'in': A.struct_repr(op.in_structure()), 'out': A.struct_repr(op.out_structure())}
+    out = {'skel': skel(op, enc), 'in': A.struct_repr(op.in_structure()), 'out': A.struct_repr(op.out_structure())}
     if contains_inverse(op) and not invertible:
         # the matrix of an iterative inverse of a singular / ill-conditioned operand is meaningless
         out['mat'] = None
@@ -243,7 +535,7 @@ def observe(thunk, enc, invertible: bool):
     try:
         m = impl_matrix(op)
         out['finite'] = bool(np.all(np.isfinite(m)))
-        out['mat'] = A.mat_json(A.frac_matrix(m)) if out['finite'] else None
+        out['mat'] = A.mat_json(fm(m)) if out['finite'] else None
     except Exception as e:
         out['mat'] = None
         out['finite'] = None
@@ -286,6 +578,12 @@ class Check(PropertyCheck):
         'floating point: 1/k and where(d != 0, 1/d, 0) are compared with exact field operations on dyadic inputs '
         '(and 1/3-type values up to 1e-4); NaN/Inf freedom is observed on the implementation (isfinite), the model '
         'never evaluates a division by zero',
+        'magnitude cases: the floats measured on the implementation are converted to rationals exactly (Fraction(float)) '
+        'and compared exactly with the model and with the closed formula 1/d; subnormal numbers are out of scope (XLA on '
+        'CPU flushes them to zero: 1/2^127 is 0 in float32), so exponents range over [-126, 126] / [-1022, 1022]; float64 '
+        'and x64-mode cases run in helper processes started with JAX_ENABLE_X64=1; in the quick tier 3/4 of the cases with '
+        'an exponent beyond +-160 are checked by the exact oracle only (model arithmetic on 300-digit rationals is slow), '
+        'all of them are compared with the model in the thorough tier',
     ]
 
     def translate(self):
@@ -319,6 +617,9 @@ class Check(PropertyCheck):
         for k in range(10 if quick else 150):
             out.append({'kind': 'blockdiag-random', 'name': f'RB{k}',
                         'desc': {'k': 'bdiagop', 'blocks': random_container(rng, 0)}})
+        out += mag_cases(rng, quick)
+        # the exact rational arithmetic of the model on 2^+-1000 is slow (~1.5 s per case): spread those cases over the shards
+        rng.shuffle(out)
         self.stats['operands'] = len(out)
         return out
 
@@ -330,7 +631,11 @@ class Check(PropertyCheck):
             'move-axis pair on ranks 2-3 and two-axis tuples (sampled in quick), QU rotations for every k*pi/4 residue, '
             'vectors of angles and generic angles, block-diagonal operators over list/tuple/dict/nested containers with '
             'closed-form, lazy, lazy-inverse, non-square and block-diagonal blocks, composites whose reduce() changes '
-            'the operand. Non-trivial: the result is not a plain InverseOperator of the same object, or is a refusal.'
+            'the operand. MAGNITUDE scopes (compared exactly, no tolerance): scalars, diagonals (1-d, along axes of 2-d '
+            'leaves and pytrees, as D.I operands) and block-diagonal operators over random nested containers whose entries are '
+            'signed powers of two over the whole normal range of the dtype (ladder dense near eps and at both ends + seeded '
+            'uniform exponents), mixed with zeros and ordinary values, in float32, float64 (x64) and float32 under x64. '
+            'Non-trivial: the result is not a plain InverseOperator of the same object, or is a refusal.'
         )
 
     def distribution(self, cases):
@@ -341,19 +646,27 @@ class Check(PropertyCheck):
 
     # -- implementation ----------------------------------------------------------------------------
     def run_impl(self, case):
+        if str(case.get('kind', '')).startswith('cg'):
+            return cg_delegate(case)
+        if case.get('x64') and not A.J()['jax'].config.jax_enable_x64:
+            return x64_delegate(case)
+        exact = 'mag' in case
         op = operand(case)
         if isinstance(op, A.Unbuildable):
             return {'build_error': op.error}
-        enc = A.Encoder()
+        enc = exact_encoder() if exact else A.Encoder()
         term = enc.term(op)  # assigns the object ids (and measures the leaves) before .I runs
         ref = A.reference_matrix(op)
         square_size = ref.shape[0] == ref.shape[1]
-        cond = float(np.linalg.cond(ref)) if square_size and ref.size else float('inf')
-        invertible = bool(np.isfinite(cond) and cond < 1e5)
-        obs = {'ref': A.mat_json(A.frac_matrix(ref)), 'invertible': invertible,
+        if exact:  # closed forms with a diagonal matrix: regular iff no zero on the diagonal (cond() is meaningless here)
+            invertible = bool(square_size and np.all(np.diag(ref) != 0))
+        else:
+            cond = float(np.linalg.cond(ref)) if square_size and ref.size else float('inf')
+            invertible = bool(np.isfinite(cond) and cond < 1e5)
+        obs = {'ref': A.mat_json((exact_matrix if exact else A.frac_matrix)(ref)), 'invertible': invertible,
                'square': A.struct_repr(op.in_structure()) == A.struct_repr(op.out_structure()),
-               'op_skel': A.skeleton(op, enc), 'op_class': type(op).__name__}
-        o1, inv = observe(lambda: op.I, enc, invertible)
+               'op_skel': (skeleton_x if exact else A.skeleton)(op, enc), 'op_class': type(op).__name__}
+        o1, inv = observe(lambda: op.I, enc, invertible, exact)
         obs['I'] = o1
         obs['II'] = None
         obs['lazy_mat'] = None
@@ -365,12 +678,27 @@ class Check(PropertyCheck):
                     obs['lazy_mat'] = A.mat_json(A.frac_matrix(np.asarray(inv.as_matrix(), dtype=np.float64)))
                 except Exception as ex:
                     obs['lazy_mat_error'] = f'{type(ex).__name__}: {str(ex)[:200]}'
-            o2, inv2 = observe(lambda: inv.I, enc, invertible)
+            o2, inv2 = observe(lambda: inv.I, enc, invertible, exact)
             obs['II'] = o2
             obs['II_is_op'] = inv2 is op
             # the pseudo-inverse diagonal itself (DiagonalInverseOperator.diagonal) must be finite
             if type(inv).__name__ == 'DiagonalInverseOperator':
                 obs['pinv_values_finite'] = bool(np.all(np.isfinite(np.asarray(inv.diagonal))))
+            if exact:
+                # A.I(A(x)) and A(A.I(x)) on a vector of small integers, through the real mv of both objects
+                try:  # as_matrix() of the closed-form inverse (observation point of the property)
+                    am = np.asarray(inv.as_matrix(), dtype=np.float64)
+                    obs['as_matrix'] = A.mat_json(exact_matrix(am)) if np.all(np.isfinite(am)) else 'contains NaN or Inf'
+                except Exception as ex:
+                    obs['as_matrix'] = f'{type(ex).__name__}: {str(ex)[:200]}'
+                n = ref.shape[1]
+                x = tree_from_flat(op.in_structure(), [XVEC[i % len(XVEC)] for i in range(n)])
+                for key, f in (('rt_left', lambda: inv(op(x))), ('rt_right', lambda: op(inv(x)))):
+                    try:
+                        y = A.flat(f())
+                        obs[key] = [A.frac_json(Fraction(float(t))) if np.isfinite(t) else str(t) for t in y]
+                    except Exception as ex:
+                        obs[key] = f'{type(ex).__name__}: {str(ex)[:200]}'
         case['_term'] = term
         case['_table'] = enc.table_coq()
         case['_unsupported'] = enc.unsupported
@@ -379,6 +707,11 @@ class Check(PropertyCheck):
     # -- model -----------------------------------------------------------------------------------
     def model_term(self, case):
         if case.get('_unsupported') or '_term' not in case:
+            return None
+        if self.tier == 'quick' and 'mag' in case and mag_weight(case['mag']) > 160 and int(lib.case_id(case), 16) % 4:
+            # quick tier: three quarters of the cases with |exponent| > 160 (float64 only) are checked by the exact oracle
+            # alone (the model's Qc arithmetic on 300-digit numbers costs ~1.5 s per case); all are compared in thorough
+            self.stats['oracle_only_in_quick'] = self.stats.get('oracle_only_in_quick', 0) + 1
             return None
         return f'observe_inv {case["_table"]} gen_order {case["_term"]}'
 
@@ -399,6 +732,8 @@ class Check(PropertyCheck):
         if not isinstance(obs, dict) or 'build_error' in obs:
             return obs
         out = {'I': part(obs['I']), 'II': part(obs['II']), 'lazy_mat': obs.get('lazy_mat')}
+        if 'mag' in case:
+            return out  # exact on both sides: no tolerance
         model = case.get('_model')
         if not obs.get('invertible') or not obs.get('square'):
             # matrices of lazy inverses of singular operands are not compared (None on the implementation side)
@@ -433,6 +768,10 @@ class Check(PropertyCheck):
 
     # -- oracle -----------------------------------------------------------------------------------
     def oracle(self, case, obs):
+        if str(case.get('kind', '')).startswith('cg'):
+            return cg_oracle(case, obs)
+        if 'mag' in case and 'build_error' not in obs:
+            return oracle_mag(case, obs)
         if 'build_error' in obs:
             return f'operand {case["name"]} cannot be constructed: {obs["build_error"]}'
         o = obs['I']
@@ -496,10 +835,15 @@ class Check(PropertyCheck):
             raise RuntimeError('CG test process failed: ' + p.stderr[-1500:])
         rep = json.loads(p.stdout.strip().splitlines()[-1])
         fails = rep.pop('failures')
-        rep['what'] = ('InverseOperator.mv on SPD Gram matrices B^T B + n I of integer matrices (sizes 2-12, condition number '
-                       '<= 1e3, float64), several right-hand sides, settings default CG / CG rtol=atol=1e-10 / Jacobi-'
-                       'preconditioned through furax.Config; criterion |A z - y| <= 10 tol (1 + |y|) with tol = rtol of the setting; '
-                       'TESTS of the convergence clause, not a proof')
+        rep['what'] = ('InverseOperator.mv on SPD Gram matrices B^T B + c I of integer matrices (sizes 2-40, condition number '
+                       '<= 1e3, float64), several right-hand sides; the configuration (default CG / CG rtol=atol=1e-10 / 1e-8 / '
+                       'Jacobi preconditioner / solver_throw / solver_callback) is established through furax.Config by a single block '
+                       '(kind cg) and by nested and sibling blocks with the settings spread over the levels, the inverse created '
+                       'in the innermost block and applied inside it, one level up, outside, or inside an unrelated block with a '
+                       'loose solver, eagerly and under jit (kind cg-nested); criteria: the inverse holds the configuration in force '
+                       'at its creation (reference: dict merge over the plan), |A z - y| <= 10 tol (1 + |y|) with tol = rtol of that '
+                       'configuration, the configured callback ran once and saw the configured max_steps; TESTS of the convergence '
+                       'clause, not a proof')
         return {'cg_solver_clause': rep,
                 'failures': [{'case': f['case'], 'observation': f['observation'], 'oracle': f['oracle'], 'key': None} for f in fails]}
 
@@ -511,6 +855,85 @@ def obs_struct(obs, k):
 def pinv_expected(case) -> bool:
     """Block-diagonal operands all of whose singular blocks are diagonals: the result is the pseudo-inverse."""
     return case['name'] in ('BLz', 'BNn', 'BBn') or case['kind'] == 'blockdiag-random'
+
+
+def oracle_mag(case, obs):
+    """Exact oracle of the magnitude cases against the closed formula on the case data: the matrix of A is
+    diag(d); the matrix of A.I is diag(1/d_i, 0 where d_i = 0) EXACTLY (reciprocals of powers of two are
+    exact in every binary format as long as they are normal numbers); A.I.I has the matrix of A; A.I(A(x))
+    and A(A.I(x)) are x on the non-zero entries and 0 elsewhere; no NaN/Inf."""
+    d = expected_diag(case['mag'])
+    n = len(d)
+    cls = obs['op_class']
+
+    def diag_of(mat, what):
+        if mat is None or len(mat) != n or any(len(r) != n for r in mat):
+            return None, f'{what} is not a {n} x {n} matrix: {mat}'
+        for i in range(n):
+            for j in range(n):
+                if i != j and Fraction(mat[i][j]) != 0:
+                    return None, f'{what} has the off-diagonal entry [{i}][{j}] = {mat[i][j]}'
+        return [Fraction(mat[i][i]) for i in range(n)], None
+
+    got, msg = diag_of(obs['ref'], f'the matrix of the operand ({cls})')
+    if msg:
+        return msg
+    if got != d:
+        if case['mag']['k'] == 'minv':
+            return (f'the operand is D.I for the diagonal D = {fl(expected_diag(case["mag"]["of"]))}: its matrix has the diagonal '
+                    f'{fl(got)}, the (pseudo-)inverse of D has {fl(d)}')
+        return f'the operand ({cls}) does not have the diagonal it was built with: {fl(got)} vs {fl(d)}'
+    o = obs['I']
+    if 'err' in o:
+        return f'inverse() of a square {cls} raised {o["err"]}'
+    if o.get('finite') is False:
+        return f'the matrix of {cls}.I contains NaN or Inf'
+    if obs.get('pinv_values_finite') is False:
+        return 'DiagonalInverseOperator.diagonal contains NaN or Inf'
+    if o.get('mat') is None:
+        return f'{cls}.I cannot be applied: {o.get("mat_error")}'
+    want = [fpinv(x) for x in d]
+    got, msg = diag_of(o['mat'], f'the matrix of {cls}.I')
+    if msg:
+        return msg
+    for i in range(n):
+        if got[i] != want[i]:
+            kind = 'inverse' if all(x != 0 for x in d) else 'Moore-Penrose pseudo-inverse'
+            return (f'entry {i} of the diagonal is {fl([d[i]])[0]} (exactly {d[i]}): the matrix of {cls}.I has {fl([got[i]])[0]} '
+                    f'there, the {kind} has {fl([want[i]])[0]} (diagonal {fl(d)}; got {fl(got)})')
+    am = obs.get('as_matrix')
+    if not isinstance(am, list):
+        return f'{cls}.I.as_matrix() failed: {am}'
+    got, msg = diag_of(am, f'{cls}.I.as_matrix()')
+    if msg:
+        return msg
+    if got != want:
+        return f'{cls}.I.as_matrix() has the diagonal {fl(got)}, the (pseudo-)inverse of diag{fl(d)} has {fl(want)}'
+    o2 = obs['II']
+    if o2 is None or 'err' in o2:
+        return f'op.I.I raised {o2 and o2.get("err")}'
+    got, msg = diag_of(o2.get('mat'), 'the matrix of op.I.I')
+    if msg:
+        return msg
+    if got != d:
+        return f'op.I.I does not denote op: diagonal {fl(got)} vs {fl(d)}'
+    if o2['in'] != o['out'] or o2['out'] != o['in']:
+        return 'structures of op.I.I are not those of op'
+    x = [XVEC[i % len(XVEC)] for i in range(n)]
+    proj = [Fraction(x[i]) if d[i] != 0 else Fraction(0) for i in range(n)]
+    for key, what in (('rt_left', 'A.I(A(x))'), ('rt_right', 'A(A.I(x))')):
+        y = obs.get(key)
+        try:
+            ok = [Fraction(t) for t in y] == proj
+        except Exception:
+            ok = False
+        if not ok:
+            return f'{what} = {y} for x = {x}: expected x on the non-zero entries of the diagonal {fl(d)}, 0 elsewhere'
+    return None
+
+
+def fl(fr):
+    return [float(x) for x in fr]
 
 
 def tofloat(m) -> np.ndarray:
@@ -537,58 +960,330 @@ def skel_close(a, b):
 
 
 # ---------------------------------------------------------------------------------------------
-# CG tests (separate process, float64)
+# helper process with jax_enable_x64 (the float64 cases and the CG tests cannot run in the default mode)
+
+_helper: dict = {}
 
 
-def cg_tests(tier: str, seed: int):
+def helper_call(case):
+    """Runs one case in a persistent helper process started with JAX_ENABLE_X64=1 (one per worker process)."""
+    import tempfile
+
+    p = _helper.get('p')
+    if p is None or p.poll() is not None:
+        envv = dict(os.environ)
+        envv['JAX_ENABLE_X64'] = '1'
+        log = tempfile.NamedTemporaryFile('w+', prefix='c06-x64-', suffix='.log', delete=False)
+        p = subprocess.Popen([sys.executable, str(Path(__file__).resolve()), '--x64-server'], stdin=subprocess.PIPE,
+                             stdout=subprocess.PIPE, stderr=log, text=True, env=envv)
+        _helper.update(p=p, log=log.name)
+        atexit.register(helper_stop)
+    p.stdin.write(json.dumps(lib.pub(case), default=str) + '\n')
+    p.stdin.flush()
+    line = p.stdout.readline()
+    if not line:
+        tail = Path(_helper['log']).read_text()[-1500:]
+        raise RuntimeError('x64 helper process died: ' + tail)
+    rep = json.loads(line)
+    if 'error' in rep:
+        raise RuntimeError('x64 helper: ' + rep['error'])
+    case.update(rep['private'])
+    return rep['obs']
+
+
+def helper_stop():
+    p = _helper.pop('p', None)
+    if p is not None:
+        try:
+            p.stdin.close()
+            p.wait(timeout=20)
+        except Exception:
+            p.kill()
+    log = _helper.pop('log', None)
+    if log and os.path.exists(log):
+        os.unlink(log)
+
+
+x64_delegate = helper_call
+
+
+def cg_delegate(case):
+    import jax
+
+    if jax.config.jax_enable_x64:
+        return run_cg_case(case)
+    return helper_call(case)
+
+
+def x64_server():
+    """Protocol: one JSON case per input line -> one JSON line {'obs', 'private'} (stdout is reserved for it)."""
+    import traceback
+
+    proto = os.fdopen(os.dup(sys.stdout.fileno()), 'w')
+    sys.stdout = sys.stderr
+    chk = Check('quick', 0)
+    for line in sys.stdin:
+        line = line.strip()
+        if not line:
+            continue
+        try:
+            case = json.loads(line)
+            obs = lib.canon(chk.run_impl(case))
+            rep = {'obs': obs, 'private': {k: v for k, v in case.items() if str(k).startswith('_')}}
+        except Exception as e:
+            rep = {'error': f'{type(e).__name__}: {e}\n{traceback.format_exc()[-1200:]}'}
+        proto.write(json.dumps(rep, default=str) + '\n')
+        proto.flush()
+
+
+# ---------------------------------------------------------------------------------------------
+# CG tests (helper process, float64): "A.I(y) solves A z = y to the CONFIGURED solver tolerance"
+#
+# A case is a concrete system (integer SPD matrix, right-hand sides) and a PLAN, the sequence of events that
+# establishes the configuration: ['E', settings] enter `with Config(**settings)` / ['X'] leave the innermost
+# block / ['N'] inv = A.I / ['A', route] apply inv to every right-hand side (route eager | jit).  Blocks still
+# open at the end are closed.  The configured tolerance is that of the configuration in force at ['N'],
+# computed by the oracle from the plan alone (dict merge over the defaults, innermost wins).
+
+CG_SOLVERS = {'default': (1e-6, 1e-6, 500), 'tight': (1e-10, 1e-10, 2000), 'mid': (1e-8, 1e-8, 1500), 'loose': (1e-2, 1e-2, 600)}
+CG_DEFAULTS = {'solver': 'default', 'options': 'none', 'throw': False, 'callback': 'default'}
+
+
+def cg_expected(plan):
+    """Configuration in force at the ['N'] event: independent reference (stack of dict updates)."""
+    stack = [dict(CG_DEFAULTS)]
+    for ev in plan:
+        if ev[0] == 'E':
+            stack.append({**stack[-1], **ev[1]})
+        elif ev[0] == 'X':
+            stack.pop()
+        elif ev[0] == 'N':
+            return dict(stack[-1])
+    raise ValueError('plan without N')
+
+
+def cg_system(rng, n):
+    while True:
+        B = rng.integers(-2, 3, size=(n + 1, n)).astype(np.float64)
+        Amat = B.T @ B + (n if n <= 12 else 1) * np.eye(n)
+        if np.linalg.cond(Amat) <= 1e3:
+            return Amat
+
+
+def cg_cases(tier: str, seed: int):
+    rng = np.random.default_rng(seed + 606)
+    quick = tier == 'quick'
+    out = []
+
+    def rhs_of(Amat, k):
+        n = Amat.shape[0]
+        r = [np.eye(n)[0], np.ones(n), rng.integers(-4, 5, size=n).astype(np.float64), Amat @ np.arange(1, n + 1)]
+        return [v.tolist() for v in r[:k]] if k == 4 else [r[2].tolist(), r[3].tolist()]
+
+    # configuration set in a single block, inverse applied outside it
+    for n in range(2, 13):
+        for _ in range(1 if quick else 4):
+            Amat = cg_system(rng, n)
+            for label, kw in (('default', {}), ('tight', {'solver': 'tight'}), ('jacobi', {'options': 'jacobi'})):
+                out.append({'kind': 'cg', 'name': f'single-{label}-{n}', 'matrix': Amat.tolist(), 'rhs': rhs_of(Amat, 4),
+                            'plan': [['E', {'callback': 'rec', **kw}], ['N'], ['X'], ['A', 'eager']]})
+    # configuration established by nested / sibling blocks; inverse created in the innermost block and applied
+    # inside it / one level up / outside every block / inside an unrelated later block with another solver
+    k = 0
+    for s in ('tight', 'mid'):
+        layouts = {
+            'outer-solver': [['E', {'solver': s}], ['E', {'callback': 'rec'}]],
+            'outer-solver-inner-options': [['E', {'solver': s, 'callback': 'rec'}], ['E', {'options': 'jacobi'}]],
+            'three-levels': [['E', {'callback': 'rec'}], ['E', {'solver': s}], ['E', {'throw': True}]],
+            'inner-overrides': [['E', {'solver': 'loose'}], ['E', {'solver': s, 'callback': 'rec'}]],
+            'outer-solver-and-options': [['E', {'solver': s, 'options': 'jacobi'}], ['E', {'callback': 'rec'}]],
+            'three-levels-options-last': [['E', {'solver': s}], ['E', {'callback': 'rec'}], ['E', {'options': 'jacobi'}]],
+            'sibling-before': [['E', {'solver': 'loose', 'callback': 'quiet'}], ['X'], ['E', {'callback': 'rec'}], ['E', {'solver': s}]],
+            'sibling-inside': [['E', {'solver': s, 'callback': 'rec'}], ['E', {'solver': 'loose', 'callback': 'quiet'}], ['X'],
+                               ['E', {'throw': False}]],
+        }
+        for lname, pre in layouts.items():
+            depth = sum(e[0] == 'E' for e in pre) - sum(e[0] == 'X' for e in pre)
+            wheres = {
+                'inside': [['N'], ['A', 'eager']],
+                'one-up': [['N'], ['X'], ['A', 'jit']],
+                'outside': [['N']] + [['X']] * depth + [['A', 'eager']],
+                'other-block': [['N']] + [['X']] * depth + [['E', {'solver': 'loose', 'callback': 'quiet'}], ['A', 'jit']],
+            }
+            for wname, post in wheres.items():
+                for _ in range(1 if quick else 3):
+                    k += 1
+                    n = (6, 12, 24, 40, 17)[k % 5]
+                    Amat = cg_system(rng, n)
+                    out.append({'kind': 'cg-nested', 'name': f'{lname}-{s}-{wname}-{n}', 'matrix': Amat.tolist(),
+                                'rhs': rhs_of(Amat, 2), 'plan': pre + post})
+    return out
+
+
+def run_cg_case(case):
+    """Runs the plan on the real code (float64, jax_enable_x64)."""
+    import contextlib
+
     import jax
     import jax.numpy as jnp
     import lineax as lx
 
     from furax import Config
+    from furax._base.config import ConfigState, default_solver_callback
     from furax._base.dense import DenseBlockDiagonalOperator
     from furax._base.diagonal import DiagonalOperator
 
     assert jax.config.jax_enable_x64
-    rng = np.random.default_rng(seed + 606)
-    sizes = list(range(2, 13))
-    reps = 1 if tier == 'quick' else 4
-    settings = [
-        ('default', {}, 1e-6),
-        ('rtol1e-10', {'solver': lx.CG(rtol=1e-10, atol=1e-10, max_steps=2000)}, 1e-10),
-        ('jacobi', None, 1e-6),
-    ]
-    total, worst, fails, steps_max = 0, 0.0, [], 0
-    for n in sizes:
-        for _ in range(reps):
-            while True:
-                B = rng.integers(-2, 3, size=(n + 1, n)).astype(np.float64)
-                Amat = B.T @ B + n * np.eye(n)
-                if np.linalg.cond(Amat) <= 1e3:
-                    break
-            s = jax.ShapeDtypeStruct((n,), jnp.float64)
-            op = DenseBlockDiagonalOperator(jnp.asarray(Amat), s, 'ij,j->i')
-            rhs = [np.eye(n)[0], np.ones(n), rng.integers(-4, 5, size=n).astype(np.float64), Amat @ np.arange(1, n + 1)]
-            for label, kw, tol in settings:
-                if kw is None:
-                    pre = DiagonalOperator(jnp.asarray(1.0 / np.diag(Amat)), in_structure=s)
-                    kw = {'solver_options': {'preconditioner': pre}}
-                with Config(solver_callback=lambda sol: None, **kw):
-                    inv = op.I
-                for y in rhs:
-                    z = np.asarray(inv(jnp.asarray(y)))
-                    res = float(np.linalg.norm(Amat @ z - y))
-                    bound = 10 * tol * (1 + float(np.linalg.norm(y)))
-                    total += 1
-                    worst = max(worst, res / bound)
-                    if not np.all(np.isfinite(z)) or res > bound:
-                        fails.append({'case': {'kind': 'cg', 'matrix': Amat.tolist(), 'rhs': y.tolist(), 'setting': label},
-                                      'observation': {'solution': z.tolist(), 'residual': res, 'bound': bound},
-                                      'oracle': f'InverseOperator.mv: residual {res:.3e} exceeds 10*tol*(1+|y|) = {bound:.3e} ({label})'})
-    return {'systems': total, 'worst_residual_over_bound': worst, 'sizes': [sizes[0], sizes[-1]], 'settings': [s[0] for s in settings],
+    Amat = np.array(case['matrix'], dtype=np.float64)
+    n = Amat.shape[0]
+    sds = jax.ShapeDtypeStruct((n,), jnp.float64)
+    op = DenseBlockDiagonalOperator(jnp.asarray(Amat), sds, 'ij,j->i')
+    jacobi = DiagonalOperator(jnp.asarray(1.0 / np.diag(Amat)), in_structure=sds)
+    solvers = {k: lx.CG(rtol=v[0], atol=v[1], max_steps=v[2]) for k, v in CG_SOLVERS.items() if k != 'default'}
+    records = []
+
+    def rec(solution):
+        records.append({'num_steps': int(solution.stats['num_steps']), 'max_steps': int(solution.stats['max_steps'])})
+
+    def quiet(solution):
+        return None
+
+    callbacks = {'rec': rec, 'quiet': quiet}
+
+    def kwargs(st):
+        kw = {}
+        if 'solver' in st:
+            kw['solver'] = solvers[st['solver']]
+        if 'options' in st:
+            kw['solver_options'] = {'preconditioner': jacobi} if st['options'] == 'jacobi' else {}
+        if 'throw' in st:
+            kw['solver_throw'] = st['throw']
+        if 'callback' in st:
+            kw['solver_callback'] = callbacks[st['callback']]
+        return kw
+
+    def describe(cfg):
+        sv = cfg.solver
+        name = next((k for k, v in solvers.items() if v is sv), None)
+        if name is None:
+            d = ConfigState().solver
+            name = 'default' if (type(sv), sv.rtol, sv.atol, sv.max_steps) == (type(d), d.rtol, d.atol, d.max_steps) else repr(sv)
+        pre = cfg.solver_options.get('preconditioner')
+        cb = cfg.solver_callback
+        return {'solver': name, 'solver_tolerances': f'rtol={sv.rtol:g} atol={sv.atol:g} max_steps={sv.max_steps}',
+                'options': 'none' if not cfg.solver_options else ('jacobi' if pre is jacobi and len(cfg.solver_options) == 1 else 'other'),
+                'throw': bool(cfg.solver_throw),
+                'callback': next((k for k, v in callbacks.items() if v is cb), 'default' if cb is default_solver_callback else 'other')}
+
+    obs = {'captured': None, 'applications': []}
+    inv = None
+    with contextlib.ExitStack() as outer:
+        stack = []
+        for ev in case['plan']:
+            if ev[0] == 'E':
+                es = contextlib.ExitStack()
+                es.enter_context(Config(**kwargs(ev[1])))
+                stack.append(es)
+                outer.push(es)
+            elif ev[0] == 'X':
+                stack.pop().close()
+            elif ev[0] == 'N':
+                inv = op.I
+                obs['captured'] = describe(inv.config)
+            elif ev[0] == 'A':
+                f = jax.jit(lambda v: inv(v)) if ev[1] == 'jit' else inv
+                sols, stats = [], []
+                for y in case['rhs']:
+                    del records[:]
+                    try:
+                        z = np.asarray(f(jnp.asarray(np.array(y, dtype=np.float64))))
+                        jax.effects_barrier()
+                        sols.append([float(t) if np.isfinite(t) else str(t) for t in z])
+                    except Exception as e:
+                        sols.append(f'{type(e).__name__}: {str(e)[:200]}')
+                    stats.append(list(records))
+                obs['applications'].append({'route': ev[1], 'solutions': sols, 'callback_records': stats})
+    return obs
+
+
+def cg_solution(z):
+    """Solution vector of an observation (canonical JSON: integers / 'n/d' strings) or None (exception, NaN, Inf)."""
+    if isinstance(z, str):
+        return None
+    try:
+        return np.array([float(Fraction(t)) for t in z], dtype=np.float64)
+    except (ValueError, ZeroDivisionError):
+        return None
+
+
+def cg_residuals(case, obs):
+    Amat = np.array(case['matrix'], dtype=np.float64)
+    out = []
+    for app in obs['applications']:
+        for y, z in zip(case['rhs'], app['solutions']):
+            v = cg_solution(z)
+            out.append(float('inf') if v is None else float(np.linalg.norm(Amat @ v - np.array(y))))
+    return out
+
+
+def cg_oracle(case, obs):
+    exp = cg_expected(case['plan'])
+    rtol, atol, max_steps = CG_SOLVERS[exp['solver']]
+    cap = obs['captured']
+    got = {k: cap[k] for k in CG_DEFAULTS}
+    wrong = None
+    if got != exp:
+        wrong = (f'the configuration in force where A.I is created is {exp} (plan {case["plan"]}) but the inverse solves with '
+                 f'{got} ({cap["solver_tolerances"]})')
+    Amat = np.array(case['matrix'], dtype=np.float64)
+    for app in obs['applications']:
+        for y, z, recs in zip(case['rhs'], app['solutions'], app['callback_records']):
+            v = cg_solution(z)
+            if v is None:
+                return f'A.I(y) raised or is not finite: {z}'
+            res = float(np.linalg.norm(Amat @ v - np.array(y, dtype=np.float64)))
+            bound = 10 * rtol * (1 + float(np.linalg.norm(y)))
+            if res > bound:
+                return (f'InverseOperator.mv ({app["route"]}): residual |A z - y| = {res:.3e} exceeds 10*tol*(1+|y|) = {bound:.3e} for the '
+                        f'configured solver {exp["solver"]} (rtol = atol = {rtol}); y = {y}' + (f'; {wrong}' if wrong else ''))
+            if wrong:
+                continue
+            if exp['callback'] == 'rec':
+                if len(recs) != 1:
+                    return f'the configured solver_callback ran {len(recs)} times during one application ({app["route"]})'
+                if recs[0]['max_steps'] != max_steps:
+                    return (f'the solve ran with max_steps = {recs[0]["max_steps"]}, the configured solver {exp["solver"]} has '
+                            f'max_steps = {max_steps}')
+            elif recs:
+                return f'a solver_callback that is not the configured one ({exp["callback"]}) ran: {recs}'
+    return wrong
+
+
+def cg_tests(tier: str, seed: int):
+    cases = cg_cases(tier, seed)
+    total, worst, fails = 0, 0.0, []
+    kinds = {}
+    for case in cases:
+        obs = lib.canon(run_cg_case(case))
+        msg = cg_oracle(case, obs)
+        kinds[case['kind']] = kinds.get(case['kind'], 0) + 1
+        rtol = CG_SOLVERS[cg_expected(case['plan'])['solver']][0]
+        ys = [y for _ in obs['applications'] for y in case['rhs']]
+        for y, res in zip(ys, cg_residuals(case, obs)):
+            total += 1
+            worst = max(worst, res / (10 * rtol * (1 + float(np.linalg.norm(y)))))
+        if msg:
+            fails.append({'case': case, 'observation': obs, 'oracle': msg})
+    sizes = sorted({len(c['matrix']) for c in cases})
+    return {'systems': total, 'cases': kinds, 'worst_residual_over_bound': worst, 'sizes': [sizes[0], sizes[-1]],
             'failures': fails[:5]}
 
 
 if __name__ == '__main__':
     if len(sys.argv) >= 4 and sys.argv[1] == '--cg':
-        print(json.dumps(cg_tests(sys.argv[2], int(sys.argv[3]))))
+        sys.stdout = sys.stderr
+        rep = json.dumps(cg_tests(sys.argv[2], int(sys.argv[3])))
+        sys.stdout = sys.__stdout__
+        print(rep)
+    elif len(sys.argv) >= 2 and sys.argv[1] == '--x64-server':
+        x64_server()
